@@ -154,7 +154,7 @@ def text_of(bitcfg, value):
         iv = int(value)
         if iv < 0:
             raise RefError('negative number')
-        s = str(iv).rjust(width, '0')
+        s = str(iv).rjust(width if not prefix_len(bitcfg) else 0, '0')
         return s
     if t == 'decimal':
         dv = decimal.Decimal(value)
